@@ -101,6 +101,17 @@ CHECKS = {
         ref="DESIGN.md 6 (C20)",
         technique="TLC-generated base queries and single edits; real hashes recorded along 9 construction routes; TLC "
                   "trace validation of the bijection structure <-> hash"),
+    "C10": dict(
+        text="spec/GenExpr.tla derives single-parameter lambdas over the whole expression grammar (names, attributes, "
+             "calls with positional and keyword arguments, subscripts, slices, unary / binary / boolean / chained "
+             "comparison operators, conditionals, tuples, lists, dicts with non-identifier keys, nested lambdas), names "
+             "decorated from a pool containing Python's own ast field names; each is given to Select, SelectMany and "
+             "Where of an untyped dataset as str, ast and real callable, and TLC (TraceTyped.JudgeUntyped) decides: the "
+             "emitted lambda is structurally the given one, or the call raised ValueError and TypeFollow.Trigger holds "
+             "(designed refusals, over-approximated); any other exception class is a rejection.",
+        ref="DESIGN.md 6 (C10), A.4",
+        technique="TLC-generated expression grammar replayed through the real operators (3 supplies); TLC trace "
+                  "validation of outcome in Allowed(expr)"),
 }
 
 ORDER = ["C%02d" % i for i in range(1, 21)]
